@@ -132,9 +132,10 @@ def gcc_agrees_with_model(case, root, texts, per_cmd, res, tool="gcc"):
             m = used.get(ap, set()) & marker_lines(texts, rel)
             g = gused.get(ap, set())
             if m != g:
-                raise core.HarnessError(
+                res.oracle_disagreement(
                     f"model disagrees with {tool} on a silent case: file={rel} model_only={sorted(m-g)} {tool}_only={sorted(g-m)} cmd={cmd}\n--- text\n{texts[rel]}"
                 )
+                return False
     res.extra[f"{tool}_confirmed_model"] = res.extra.get(f"{tool}_confirmed_model", 0) + 1
     return True
 
